@@ -91,16 +91,17 @@ def main(tier, seed):
     pool.run_cases(exh, 'vf.props.nameeng:run_case', timeout=180, batch=1, on_result=on, deadline=run.deadline)
     pool.run_cases(small, 'vf.props.nameeng:run_case', timeout=60, batch=40, on_result=on, deadline=run.deadline)
     pool.run_cases(medium, 'vf.props.nameeng:run_case', timeout=180, batch=3, on_result=on, deadline=run.deadline)
+    nameeng.foreign_layer(run, PROP, small, tier, per_version=350 if tier == 'quick' else 6000)
     pool.run_cases(big, 'vf.props.nameeng:run_case', timeout=180, batch=1, on_result=on, deadline=run.deadline)
     return run.finish(
         rule='scope shapes: exhaustive nestings of def / async def / class (depth <= 2) x expression scopes (lambda, 4 comprehension kinds) x 28 '
              'binding forms x bind level x 26 reference positions (quick: sample) + random deeper nestings with colliding names, seeds, random '
-             'modules, stdlib files, name-pool exhaustion stress; options: every non-empty subset of {rename_locals, rename_globals, '
+             'modules, stdlib files, name-pool exhaustion stress; a sample of the small cases again with the minifier running in 3.6 / 3.7 / 3.8 / 3.10 / 3.13 (thorough: all installed 3.x), output decided by the same matcher; options: every non-empty subset of {rename_locals, rename_globals, '
              'hoist_literals} over default / all-off / random bases with random preserve lists; non-trivial/distinct = distinct (source, option '
              'set) where at least one binding was really renamed or an alias introduced',
         assumptions=['vf/oracle/scopes.py implements the language reference scoping rules; it is cross-checked against symtable on every input '
                      'and output, disagreement makes the case inconclusive', 'PEP 695 type-parameter scopes are not modelled (inconclusive)'],
-        min_nontrivial=200, required_counters=['matcher_runs', 'exhaustion_cases_held'])
+        min_nontrivial=200, required_counters=['matcher_runs', 'exhaustion_cases_held', 'foreign_outputs_compared'])
 
 
 def replay(path):
